@@ -219,13 +219,6 @@ pub fn menu() -> Vec<Kind> {
     v
 }
 
-pub fn kind_by_name<'a>(menu: &'a [Kind], name: &str) -> &'a Kind {
-    menu.iter().find(|k| k.name == name).unwrap_or_else(|| {
-        eprintln!("MACHINERY: unknown request kind {name}");
-        std::process::exit(3)
-    })
-}
-
 // -------------------------------------------------------------- server
 
 #[derive(Clone, Debug, PartialEq, Eq)]
@@ -432,9 +425,6 @@ impl Observed {
             Observed::Malformed(s) | Observed::Panic(s) => s.clone(),
             o => o.name().to_string(),
         }
-    }
-    pub fn limited(&self) -> bool {
-        matches!(self, Observed::Slipped | Observed::Dropped)
     }
 }
 
